@@ -470,6 +470,10 @@ fn handwritten() -> Vec<(String, String)> {
         ("hw/scanner-states", "%start S\n%scanner Esc {\n    %auto_newline_off\n    %on A %enter INITIAL\n}\n%on A %enter Esc\n%%\nS: A <Esc>B;\nA: \"a\";\nB: <Esc>\"b\";\n"),
         ("hw/user-types", "%start S\n%user_type N = crate::N\n%nt_type S = crate::S\n%t_type crate::T\n%%\nS: \"a\": N | B: crate::X;\nB: \"b\"^;\n"),
         ("hw/skip", "%start S\n%scanner Esc {\n    %skip BAD, GOOD // keep\n}\n%%\nS: <Esc>\"x\";\nBAD: \"bad\";\nGOOD: <Esc>\"good\";\n"),
+        // the directive only inside / after an inline comment, before and after real text (stale diagnostics
+        // after the user commented a directive out still arrive with code-action requests)
+        ("hw/skip-commented-out", "%start S\n%scanner Esc {\n    // %skip BAD, GOOD\n    # %skip BAD\n    %auto_ws_off // %skip GOOD\n}\n%%\nS: <Esc>\"x\";\nBAD: \"bad\";\nGOOD: <Esc>\"good\";\n"),
+        ("hw/skip-and-comment-mix", "%start S\n%scanner Esc {\n    %skip BAD // %skip GOOD, BAD\n    %on GOOD %enter INITIAL // %on BAD %enter Esc\n}\n// %on GOOD %enter Esc\n%%\nS: <Esc>\"x\";\nBAD: \"bad\";\nGOOD: <Esc>\"good\";\n"),
         ("hw/only-prolog", "%start S\n%title \"t\"\n"),
         ("hw/garbage", "%%%% ;;; ::: \"unterminated\n'x"),
         ("hw/bom", "\u{feff}%start S\n%%\nS: \"a\";\n"),
